@@ -203,10 +203,11 @@ def run(repo, rep, tier):
   sigma_d = std_y * sympy.sqrt(1 - corr ** 2)
   scale_plan = scale.subs({sigma: sigma_d, dv: dv_plan})
   want = (t_ppf(sig, n - 2) + t_ppf(power, n - 2)) * scale_plan
-  known = {str(x_) for x_ in (n_test, n, flevel, sig, power, std_y, corr, sigma, dv)} | {'xt', 'yt', 'xm', 'ym', 'b', 't_ppf', 'f_ppf'}
+  modconsts = {k_ for k_, v_ in fe.module.assigns.items() if isinstance(v_, ast.Constant)}
+  known = {str(x_) for x_ in (n_test, n, flevel, sig, power, std_y, corr, sigma, dv)} | {'xt', 'yt', 'xm', 'ym', 'b', 't_ppf', 'f_ppf'} | modconsts | set(pnames) | {'self._par', 'self._x', 'self._y', 'self.x', 'self.y'}
   eq1 = lambda a_, b_: sympy.simplify(a_ ** 2 - b_ ** 2) == 0 and sympy.simplify(sympy.powsimp(a_ / b_, force=True)) == 1
   open_scale = sym.aliens(scale, known)
-  ok1, al1 = sym.verdict(impact, want, {str(x_) for x_ in (n_test, n, flevel, sig, power, std_y, corr)} | {'t_ppf', 'f_ppf'}, eq=eq1)
+  ok1, al1 = sym.verdict(impact, want, {str(x_) for x_ in (n_test, n, flevel, sig, power, std_y, corr)} | {'t_ppf', 'f_ppf'} | modconsts | set(pnames), eq=eq1)
   if not ok1 and open_scale:
     ok1, al1 = None, open_scale
   rep.check3(ok1, 'R1/calibration', 'required impact == (tq_sig + tq_pow) * TBR scale at the planning displacement', fe.qualname,
@@ -230,7 +231,7 @@ def run(repo, rep, tier):
   # R2 dependence shape
   K = sympy.simplify(impact / (std_y * sympy.sqrt(1 - corr ** 2)))
   free = K.free_symbols & {std_y, corr}
-  al_imp = sym.aliens(impact, {str(x_) for x_ in (n_test, n, flevel, sig, power, std_y, corr)} | {'t_ppf', 'f_ppf'})
+  al_imp = sym.aliens(impact, {str(x_) for x_ in (n_test, n, flevel, sig, power, std_y, corr)} | {'t_ppf', 'f_ppf'} | modconsts | set(pnames))
   rep.check3(True if not free else (None if al_imp else False), 'R2/dependence', 'impact = K(parameters) * std(y, ddof=2) * sqrt(1 - corr^2): linear in the unit, shift invariant', fe.qualname,
             'impact / (std_y*sqrt(1-corr^2)) = %s' % sympy.sstr(K)[:160],
             'the required impact does not factor as K * std(y) * sqrt(1 - corr^2) (residual dependence on %s): it is not linear in the response unit / not a function of |corr| of the documented shape' % free, fe.loc(),
